@@ -16,7 +16,7 @@ RULE = ("each logical case (test function, dyadic series with missing values, wh
         "and under every documented carrier: data/aux as list/tuple with None, with NaN, float32 / object / int "
         "(no missing) ndarray, numpy masked array over a finite value, pandas Series with default and shifted "
         "index, dask array; times as datetime64 ns/us/ms/s, Python datetimes naive/UTC, Timestamps, DatetimeIndex "
-        "naive/UTC, Series naive/UTC, epoch ints/floats/lists; spans as tuples.  Recorded results are grouped by case "
+        "naive/UTC, Series naive/UTC, epoch ints/floats/lists (whole seconds and a half-second grid); spans as tuples.  Recorded results are grouped by case "
         "and every member's flags must equal the baseline's.  distinct = (function mode, varied input, carrier, "
         "flag set); trivial = baseline itself.")
 ASSUMPTIONS = ["values are float32-exact dyadics so that a float32 carrier is the same logical series",
@@ -29,6 +29,7 @@ EXHAUSTIVE_ALL = False
 DATA_CARRIERS = ["list-none", "tuple-none", "list-nan", "tuple-nan", "f32", "object", "masked-finite", "masked-nan",
                  "series", "series-shifted", "dask", "int"]
 TIME_CARRIERS = [c for c in gen.TIME_CARRIERS if c != "dt64ns"]
+T0F = float(gen.T0)
 POISON = [1.0, 2.5, -7.0, 100.0, 0.0]  # finite values hidden under the mask: GOOD-, SUSPECT- and FAIL-looking
 
 
@@ -75,6 +76,9 @@ def cases(rng):
     # so a carrier that is silently narrowed shows up (the f32 carrier itself is skipped for these cases)
     OFF = float(2 ** 24) if rng.random() < 0.4 else 0.0
     t = gen.irregular(rng, n, steps=(1, 60, 61, 3600, 86400)) if rng.random() < 0.5 else gen.regular(n, rng.choice([1, 60, 900]))
+    if rng.random() < 0.3:
+        # sub-second family: instants on a 0.5 s grid (numbers of seconds need not be whole)
+        t = [T0F + 0.5 * k for k in sorted(rng.sample(range(0, 40), n))]
     intvals = rng.random() < 0.25
     pm = 0 if intvals else rng.choice([0, 0.2, 0.4])
     x = [None if rng.random() < pm else (float(rng.randrange(-3, 6)) if intvals else gen.dyadic(rng, -3, 5, 4)) for _ in range(n)]
@@ -84,6 +88,8 @@ def cases(rng):
     x = [None if v is None else v + OFF for v in x]
     D = ("data", x)
     Tm = ("time", t)
+    if any(v != int(v) for v in t):
+        return _subsec_cases(rng, x, z, lon, lat, t, D, Tm)
     return [
         ("gross_range", "qartod.gross_range_test", {"inp": D, "fail_span": ("span", [-2 + OFF, 4 + OFF]), "suspect_span": ("span", [-1 + OFF, 2 + OFF])}),
         ("valid_range", "axds.valid_range_test", {"inp": D, "valid_span": ("span", [-1 + OFF, 3 + OFF])}),
@@ -117,6 +123,22 @@ def cases(rng):
     ]
 
 
+def _subsec_cases(rng, x, z, lon, lat, t, D, Tm):
+    """time-dependent tests only, on a half-second grid (flat_line_test is left out: it converts durations to
+    counts with the sampling step in whole seconds, which is 0 here -- sub-second sampling is outside C11's domain)"""
+    return [
+        ("rate_of_change-subsec", "qartod.rate_of_change_test", {"inp": D, "tinp": Tm, "threshold": ("param", 0.4)}),
+        ("attenuated-window-subsec", "qartod.attenuated_signal_test", {"inp": D, "tinp": Tm, "suspect_threshold": ("param", 2),
+                                                                       "fail_threshold": ("param", 0.5), "test_period": ("param", 4),
+                                                                       "min_obs": ("param", 2)}),
+        ("speed-subsec", "argo.speed_test", {"lon": ("aux", lon), "lat": ("aux", lat), "tinp": Tm,
+                                             "suspect_threshold": ("param", 3000), "fail_threshold": ("param", 60000)}),
+        ("climatology-subsec", "qartod.climatology_test", {
+            "config": ("param", [{"tspan": ("2021-03-01T00:00:05", "2021-03-01T00:00:12"), "vspan": (0, 2), "fspan": [-2, 4]}]),
+            "inp": D, "tinp": Tm, "zinp": ("aux", z)}),
+    ]
+
+
 def build(roles, vary=None, how=None, func=None):
     """kwargs for the baseline, or with input `vary` rendered in carrier `how`; None if not applicable."""
     kw = {}
@@ -138,6 +160,8 @@ def build(roles, vary=None, how=None, func=None):
                 kw["dtype"] = np.float64
         elif kind == "time":
             kw[name] = gen.times(val, how if mine else "dt64ns")
+            if kw[name] is None:
+                return None  # carrier cannot represent sub-second instants
         elif kind == "timedata":
             c = how if mine else "dt64ns"
             if c in ("epoch-int", "epoch-float", "epoch-list"):
